@@ -2,11 +2,54 @@
 from common import SAN_BASE
 
 PROP = dict(
-        technique="runtime monitoring: ASan/UBSan build + exact arithmetic oracle (__int128 / long double / big-number numeral parser) applied to every conversion result, each conversion run with and without destination",
-        level_text="(filled in below)",
-        level_note="",
-        legs=[dict(name="c07_value", src=["c07_value.c"], libs=["mptcore"], batch=64, floors={}),
-              dict(name="c07_text", src=["c07_text.c"], libs=["mptcore"], batch=8, floors={})],
-        rule="",
-        assumptions=SAN_BASE,
+        technique=("runtime monitoring: ASan/UBSan build + exact arithmetic oracle (__int128, long double with neighbour cross-check, "
+                   "independent big-number numeral parser) applied to every conversion result; every conversion is run with a destination "
+                   "(sentinel-filled exact-size heap block) and with NULL destination"),
+        level_text=("Monitored executions of the real converters.  Value leg: all 12 source types x 13 scalar targets (+ own vector, foreign "
+                    "vector, generic vector, unknown type codes) through the typed mpt_data_convert_* functions, the function returned by "
+                    "mpt_data_converter(), mpt_value_convert() and mpt_iterator_consume(); 8- and 16-bit sources enumerated completely, wider "
+                    "and floating sources on a boundary list (+-2 around every integer type limit, powers of two +-1, 2^24/2^53, FLT/DBL/LDBL "
+                    "limits and the half-ulp overflow thresholds, subnormals, +-0, inf, NaN) plus PRNG values.  Text leg: mpt_c{int,uint}{8..64}, "
+                    "mpt_cchar/cint/clong/cuchar/cuint/culong, _mpt_convert_int/_uint (lengths 1,2,4,8,3), mpt_cfloat/cdouble/cldouble, "
+                    "mpt_convert_number and mpt_convert_string for every number type, bases 0/10/16/8/2/36, on boundary magnitudes up to "
+                    "2^128 with every sign and prefix form, malformed texts and PRNG-decorated numerals.  Every accepted result is compared "
+                    "with the exact value of the source / of the characters reported as consumed; query and performing call must agree.  "
+                    "Exploration, not proof: 32/64-bit and floating sources and numerals are sampled."),
+        level_note=("trusts the oracle code in harness/c07_value.c and c07_text.c, x87 long double arithmetic (64-bit mantissa holds every "
+                    "source value exactly), glibc strtof/strtod/strtold as correctly rounded reference for decimal/hex fractions (plain decimal "
+                    "integers below 2^64 are checked without glibc), gcc ASan+UBSan"),
+        legs=[dict(name="c07_value", src=["c07_value.c"], libs=["mptcore"], batch=64,
+                   floors={"mpt_data_convert_int8": 10000, "mpt_data_convert_uint8": 5000, "mpt_data_convert_int16": 1000000,
+                           "mpt_data_convert_uint16": 1000000, "mpt_data_convert_int32": 100000, "mpt_data_convert_uint32": 100000,
+                           "mpt_data_convert_int64": 100000, "mpt_data_convert_uint64": 100000, "mpt_data_convert_float32": 300000,
+                           "mpt_data_convert_float64": 300000, "mpt_data_convert_exflt": 300000,
+                           "mpt_data_converter:calls-through": 3000000, "mpt_value_convert": 3000000, "mpt_iterator_consume": 3000000,
+                           "monitor:target-value-compared": 3000000, "monitor:float-nearest-checked": 1000000,
+                           "monitor:query-verdict-compared": 6000000, "monitor:refused-not-representable": 2000000,
+                           "monitor:vector-over-source": 200000, "monitor:unknown-target-refused": 800000,
+                           "exhaustive:blocks": 2380}),
+              dict(name="c07_text", src=["c07_text.c"], libs=["mptcore"], batch=8,
+                   floors={"mpt_cint8": 20000, "mpt_cint16": 20000, "mpt_cint32": 20000, "mpt_cint64": 20000, "mpt_cchar": 20000,
+                           "mpt_cint": 20000, "mpt_clong": 20000, "mpt_cuint8": 20000, "mpt_cuint16": 20000, "mpt_cuint32": 20000,
+                           "mpt_cuint64": 20000, "mpt_cuchar": 20000, "mpt_cuint": 20000, "mpt_culong": 20000,
+                           "_mpt_convert_int": 100000, "_mpt_convert_uint": 100000, "mpt_cfloat": 15000, "mpt_cdouble": 15000,
+                           "mpt_cldouble": 15000, "mpt_convert_number": 200000, "mpt_convert_string": 200000,
+                           "monitor:integer-value-compared": 150000, "monitor:float-value-compared": 60000,
+                           "monitor:float-exact-integer-compared": 20000, "monitor:character-compared": 15000,
+                           "monitor:query-verdict-compared": 500000, "monitor:range-argument-checked": 10000,
+                           "monitor:refused-not-representable": 150000})],
+        rule=("value leg: case = (API, source type, target, block): a block is the complete value range (8-bit), 4096 consecutive values "
+              "(16-bit, 16 blocks) or the boundary list plus 1000 (quick) / 4000 (thorough) PRNG values (32/64-bit, floating); every value "
+              "is converted with and without destination.  text leg: case = (function [and length / type argument], base, block): every "
+              "boundary magnitude x sign rendered for the base, 75 malformed/limit texts (integer targets) or 230 floating texts, and 400 "
+              "(quick) / 1500 (thorough) PRNG-decorated numerals, optionally with a range argument.  non-trivial = at least one accepted "
+              "conversion whose target was compared with the oracle, or a refusal of a source the target cannot represent (value leg); at "
+              "least one compared result and one refusal (text leg); distinct = hash of (API/function, types, base, block, values/texts)"),
+        exhaustive_note="value leg: every value of the 8-bit (c, b, y) and 16-bit (n, q) source types x 13 scalar targets + vector/unknown targets x 4 API paths x {destination, NULL}",
+        assumptions=SAN_BASE + ["precision rule of DESIGN section 4: a floating target must hold the round-to-nearest image of the source (ties: either neighbour); finite source -> inf/NaN is a violation",
+                                "return 0 of the text functions means 'nothing converted' (empty / space-only text) and is neither success nor refusal; mpt_convert_string may report leading space as consumed without storing a value (counted, not asserted)",
+                                "vector targets: only 'success with destination yields an iovec over the source' is asserted (the typed converters answer MissingData to a vector query by design)",
+                                "target codes without mpt_type_traits() entry (except the documented alias 'l') must be refused",
+                                "return value of the typed converters (documented as destination size) is not part of the property and not asserted",
+                                "C locale (isgraph/isspace), x86-64: char is signed, long is 64 bit, long double is the 80-bit x87 format"],
     )
